@@ -7,3 +7,7 @@ open SemantivaModel.Trace
 #print axioms SemantivaModel.Tie.C06.C06_trace_wellformed
 #print axioms SemantivaModel.Tie.C06.C06_bracketed
 #print axioms SemantivaModel.Tie.C06.C06_always_closed
+#print axioms publish_fault_wellformed
+#print axioms publish_fault_one_ser_per_node
+#print axioms SemantivaModel.Tie.C06.publish_outside
+#print axioms SemantivaModel.Tie.C06.C06_publish_fault
